@@ -14,3 +14,4 @@ import JominiModel.Props.C14
 #print axioms Jomini.Props.C14.C14_known_empty_first_element_breaks
 #print axioms Jomini.Props.C14.C14_known_header_empty_body_breaks
 #print axioms Jomini.Props.C14.C14_nested_roundtrip
+#print axioms Jomini.Props.C14.C14_roundtrip_full
